@@ -390,3 +390,465 @@ package vm
 //@   ensures err != nil && (evm.chainRules.IsHomestead || err != ErrCodeStoreOutOfGas) ==> result.StateGas == gas.StateGas && result.UsedStateGas == 0 && result.Spilled == 0
 //@   modifies evm.depth, evm.readOnly, evm.returnData, *evm.AccessEvents, *evm.precompileCache
 //@   mutates
+
+// ================================================================ C27 / C28: operand stack, memory, size and gas arithmetic
+
+// Representation invariant of a stack frame carved out of the shared arena: the arena's first
+// free slot is exactly this frame's top, the frame holds at most 1024 items and the arena has
+// room for all of them (stackArena.stack guarantees len(data) >= bottom+1024).
+//@ pure func stackInv(s *Stack) bool { return s.inner != nil && 0 <= s.bottom && 0 <= s.size && s.size <= 1024 && s.inner.top == s.bottom + s.size && s.bottom + 1024 <= len(s.inner.data) }
+// Value of the n-th item from the top.
+//@ pure func sval(s *Stack, n int) int { return s.inner.data[s.bottom + s.size - n - 1] }
+
+//@ func (s *Stack) len() (n int)
+//@   serves C27 C28
+//@   ensures n == s.size
+
+//@ func (s *Stack) back(n int) (r *uint256.Int)
+//@   serves C27 C28
+//@   requires stackInv(s) && 0 <= n && n < s.size
+//@   ensures r == &s.inner.data[s.bottom + s.size - n - 1] && u256val(r) == sval(s, n)
+
+//@ func (s *Stack) peek() (r *uint256.Int)
+//@   serves C27 C28
+//@   requires stackInv(s) && 1 <= s.size
+//@   ensures r == &s.inner.data[s.bottom + s.size - 1] && u256val(r) == sval(s, 0)
+
+//@ func (s *Stack) get() (elem *uint256.Int)
+//@   serves C27 C28
+//@   requires stackInv(s) && s.size < 1024
+//@   modifies s.size, s.inner.top
+//@   ensures stackInv(s) && s.size == old(s.size) + 1 && elem == &s.inner.data[s.bottom + s.size - 1]
+
+// push writes exactly one arena slot: the one just above the old top.
+//@ func (s *Stack) push(d *uint256.Int)
+//@   serves C27 C28
+//@   requires stackInv(s) && s.size < 1024
+//@   modifies s.size, s.inner.top, s.inner.data[s.bottom + s.size : s.bottom + s.size + 1]
+//@   ensures stackInv(s) && s.size == old(s.size) + 1 && sval(s, 0) == old(u256val(d))
+
+//@ func (s *Stack) pop() (v uint256.Int)
+//@   serves C27 C28
+//@   requires stackInv(s) && 1 <= s.size
+//@   modifies s.size, s.inner.top
+//@   ensures stackInv(s) && s.size == old(s.size) - 1 && v == old(sval(s, 0))
+
+//@ func (s *Stack) drop()
+//@   serves C27 C28
+//@   requires stackInv(s) && 1 <= s.size
+//@   modifies s.size, s.inner.top
+//@   ensures stackInv(s) && s.size == old(s.size) - 1
+
+//@ func (s *Stack) pop1() (top *uint256.Int)
+//@   serves C27 C28
+//@   requires stackInv(s) && 1 <= s.size
+//@   modifies s.size, s.inner.top
+//@   ensures stackInv(s) && s.size == old(s.size) - 1 && top == &s.inner.data[s.bottom + s.size]
+
+//@ func (s *Stack) pop2() (top, second *uint256.Int)
+//@   serves C27 C28
+//@   requires stackInv(s) && 2 <= s.size
+//@   modifies s.size, s.inner.top
+//@   ensures stackInv(s) && s.size == old(s.size) - 2 && top == &s.inner.data[s.bottom + s.size + 1] && second == &s.inner.data[s.bottom + s.size]
+
+//@ func (s *Stack) pop3() (top, second, third *uint256.Int)
+//@   serves C27 C28
+//@   requires stackInv(s) && 3 <= s.size
+//@   modifies s.size, s.inner.top
+//@   ensures stackInv(s) && s.size == old(s.size) - 3 && top == &s.inner.data[s.bottom + s.size + 2] && second == &s.inner.data[s.bottom + s.size + 1] && third == &s.inner.data[s.bottom + s.size]
+
+//@ func (s *Stack) pop4() (top, second, third, fourth *uint256.Int)
+//@   serves C27 C28
+//@   requires stackInv(s) && 4 <= s.size
+//@   modifies s.size, s.inner.top
+//@   ensures stackInv(s) && s.size == old(s.size) - 4 && top == &s.inner.data[s.bottom + s.size + 3] && second == &s.inner.data[s.bottom + s.size + 2] && third == &s.inner.data[s.bottom + s.size + 1] && fourth == &s.inner.data[s.bottom + s.size]
+
+//@ func (s *Stack) pop1Peek1() (top, rest *uint256.Int)
+//@   serves C27 C28
+//@   requires stackInv(s) && 2 <= s.size
+//@   modifies s.size, s.inner.top
+//@   ensures stackInv(s) && s.size == old(s.size) - 1 && top == &s.inner.data[s.bottom + s.size] && rest == &s.inner.data[s.bottom + s.size - 1]
+
+//@ func (s *Stack) pop2Peek1() (top, second, rest *uint256.Int)
+//@   serves C27 C28
+//@   requires stackInv(s) && 3 <= s.size
+//@   modifies s.size, s.inner.top
+//@   ensures stackInv(s) && s.size == old(s.size) - 2 && top == &s.inner.data[s.bottom + s.size + 1] && second == &s.inner.data[s.bottom + s.size] && rest == &s.inner.data[s.bottom + s.size - 1]
+
+// dup(n) copies the n-th item from the top into the slot above the top and touches nothing else.
+//@ func (s *Stack) dup(n int)
+//@   serves C27 C28
+//@   requires stackInv(s) && 1 <= n && n <= s.size && s.size < 1024
+//@   modifies s.size, s.inner.top, s.inner.data[s.bottom + s.size : s.bottom + s.size + 1]
+//@   ensures stackInv(s) && s.size == old(s.size) + 1 && sval(s, 0) == old(sval(s, n - 1))
+
+// release hands the frame's slots back to the arena (the parent frame's invariant holds again).
+//@ func (s *Stack) release()
+//@   serves C27 C28
+//@   requires s.inner != nil
+//@   modifies s.inner.top
+//@   ensures s.inner.top == s.bottom
+
+//@ func (s *Stack) Data() (d []uint256.Int)
+//@   serves C27 C28
+//@   requires stackInv(s)
+//@   ensures d == s.inner.data[s.bottom : s.bottom + s.size]
+
+//@ func (s *Stack) swap1()
+//@   serves C27 C28
+//@   requires stackInv(s) && 2 <= s.size
+//@   modifies s.inner.data[s.bottom + s.size - 2 : s.bottom + s.size]
+//@   ensures sval(s, 0) == old(sval(s, 1)) && sval(s, 1) == old(sval(s, 0))
+//@   ensures forall k int :: 0 < k && k < 1 ==> sval(s, k) == old(sval(s, k))
+
+//@ func (s *Stack) swap2()
+//@   serves C27 C28
+//@   requires stackInv(s) && 3 <= s.size
+//@   modifies s.inner.data[s.bottom + s.size - 3 : s.bottom + s.size]
+//@   ensures sval(s, 0) == old(sval(s, 2)) && sval(s, 2) == old(sval(s, 0))
+//@   ensures forall k int :: 0 < k && k < 2 ==> sval(s, k) == old(sval(s, k))
+
+//@ func (s *Stack) swap3()
+//@   serves C27 C28
+//@   requires stackInv(s) && 4 <= s.size
+//@   modifies s.inner.data[s.bottom + s.size - 4 : s.bottom + s.size]
+//@   ensures sval(s, 0) == old(sval(s, 3)) && sval(s, 3) == old(sval(s, 0))
+//@   ensures forall k int :: 0 < k && k < 3 ==> sval(s, k) == old(sval(s, k))
+
+//@ func (s *Stack) swap4()
+//@   serves C27 C28
+//@   requires stackInv(s) && 5 <= s.size
+//@   modifies s.inner.data[s.bottom + s.size - 5 : s.bottom + s.size]
+//@   ensures sval(s, 0) == old(sval(s, 4)) && sval(s, 4) == old(sval(s, 0))
+//@   ensures forall k int :: 0 < k && k < 4 ==> sval(s, k) == old(sval(s, k))
+
+//@ func (s *Stack) swap5()
+//@   serves C27 C28
+//@   requires stackInv(s) && 6 <= s.size
+//@   modifies s.inner.data[s.bottom + s.size - 6 : s.bottom + s.size]
+//@   ensures sval(s, 0) == old(sval(s, 5)) && sval(s, 5) == old(sval(s, 0))
+//@   ensures forall k int :: 0 < k && k < 5 ==> sval(s, k) == old(sval(s, k))
+
+//@ func (s *Stack) swap6()
+//@   serves C27 C28
+//@   requires stackInv(s) && 7 <= s.size
+//@   modifies s.inner.data[s.bottom + s.size - 7 : s.bottom + s.size]
+//@   ensures sval(s, 0) == old(sval(s, 6)) && sval(s, 6) == old(sval(s, 0))
+//@   ensures forall k int :: 0 < k && k < 6 ==> sval(s, k) == old(sval(s, k))
+
+//@ func (s *Stack) swap7()
+//@   serves C27 C28
+//@   requires stackInv(s) && 8 <= s.size
+//@   modifies s.inner.data[s.bottom + s.size - 8 : s.bottom + s.size]
+//@   ensures sval(s, 0) == old(sval(s, 7)) && sval(s, 7) == old(sval(s, 0))
+//@   ensures forall k int :: 0 < k && k < 7 ==> sval(s, k) == old(sval(s, k))
+
+//@ func (s *Stack) swap8()
+//@   serves C27 C28
+//@   requires stackInv(s) && 9 <= s.size
+//@   modifies s.inner.data[s.bottom + s.size - 9 : s.bottom + s.size]
+//@   ensures sval(s, 0) == old(sval(s, 8)) && sval(s, 8) == old(sval(s, 0))
+//@   ensures forall k int :: 0 < k && k < 8 ==> sval(s, k) == old(sval(s, k))
+
+//@ func (s *Stack) swap9()
+//@   serves C27 C28
+//@   requires stackInv(s) && 10 <= s.size
+//@   modifies s.inner.data[s.bottom + s.size - 10 : s.bottom + s.size]
+//@   ensures sval(s, 0) == old(sval(s, 9)) && sval(s, 9) == old(sval(s, 0))
+//@   ensures forall k int :: 0 < k && k < 9 ==> sval(s, k) == old(sval(s, k))
+
+//@ func (s *Stack) swap10()
+//@   serves C27 C28
+//@   requires stackInv(s) && 11 <= s.size
+//@   modifies s.inner.data[s.bottom + s.size - 11 : s.bottom + s.size]
+//@   ensures sval(s, 0) == old(sval(s, 10)) && sval(s, 10) == old(sval(s, 0))
+//@   ensures forall k int :: 0 < k && k < 10 ==> sval(s, k) == old(sval(s, k))
+
+//@ func (s *Stack) swap11()
+//@   serves C27 C28
+//@   requires stackInv(s) && 12 <= s.size
+//@   modifies s.inner.data[s.bottom + s.size - 12 : s.bottom + s.size]
+//@   ensures sval(s, 0) == old(sval(s, 11)) && sval(s, 11) == old(sval(s, 0))
+//@   ensures forall k int :: 0 < k && k < 11 ==> sval(s, k) == old(sval(s, k))
+
+//@ func (s *Stack) swap12()
+//@   serves C27 C28
+//@   requires stackInv(s) && 13 <= s.size
+//@   modifies s.inner.data[s.bottom + s.size - 13 : s.bottom + s.size]
+//@   ensures sval(s, 0) == old(sval(s, 12)) && sval(s, 12) == old(sval(s, 0))
+//@   ensures forall k int :: 0 < k && k < 12 ==> sval(s, k) == old(sval(s, k))
+
+//@ func (s *Stack) swap13()
+//@   serves C27 C28
+//@   requires stackInv(s) && 14 <= s.size
+//@   modifies s.inner.data[s.bottom + s.size - 14 : s.bottom + s.size]
+//@   ensures sval(s, 0) == old(sval(s, 13)) && sval(s, 13) == old(sval(s, 0))
+//@   ensures forall k int :: 0 < k && k < 13 ==> sval(s, k) == old(sval(s, k))
+
+//@ func (s *Stack) swap14()
+//@   serves C27 C28
+//@   requires stackInv(s) && 15 <= s.size
+//@   modifies s.inner.data[s.bottom + s.size - 15 : s.bottom + s.size]
+//@   ensures sval(s, 0) == old(sval(s, 14)) && sval(s, 14) == old(sval(s, 0))
+//@   ensures forall k int :: 0 < k && k < 14 ==> sval(s, k) == old(sval(s, k))
+
+//@ func (s *Stack) swap15()
+//@   serves C27 C28
+//@   requires stackInv(s) && 16 <= s.size
+//@   modifies s.inner.data[s.bottom + s.size - 16 : s.bottom + s.size]
+//@   ensures sval(s, 0) == old(sval(s, 15)) && sval(s, 15) == old(sval(s, 0))
+//@   ensures forall k int :: 0 < k && k < 15 ==> sval(s, k) == old(sval(s, k))
+
+//@ func (s *Stack) swap16()
+//@   serves C27 C28
+//@   requires stackInv(s) && 17 <= s.size
+//@   modifies s.inner.data[s.bottom + s.size - 17 : s.bottom + s.size]
+//@   ensures sval(s, 0) == old(sval(s, 16)) && sval(s, 16) == old(sval(s, 0))
+//@   ensures forall k int :: 0 < k && k < 16 ==> sval(s, k) == old(sval(s, k))
+
+// ---- memory size arithmetic (memory_table.go, common.go)
+
+// Bytes of memory an access (offset, length) needs, and whether that does not fit 64 bits.
+//@ pure func memNeed(off int, length int) int { return ite(length == 0, 0, off + length) }
+//@ pure func memOvf(off int, length int) bool { return length != 0 && off + length >= 18446744073709551616 }
+
+//@ func calcMemSize64WithUint(off *uint256.Int, length64 uint64) (size uint64, overflow bool)
+//@   serves C27
+//@   ensures overflow == memOvf(u256val(off), length64)
+//@   ensures !overflow ==> size == memNeed(u256val(off), length64)
+
+//@ func calcMemSize64(off, l *uint256.Int) (size uint64, overflow bool)
+//@   serves C27
+//@   ensures overflow == memOvf(u256val(off), u256val(l))
+//@   ensures !overflow ==> size == memNeed(u256val(off), u256val(l))
+
+//@ func toWordSize(size uint64) (w uint64)
+//@   serves C27
+//@   ensures w == (size + 31) / 32
+
+//@ func memoryKeccak256(stack *Stack) (size uint64, overflow bool)
+//@   serves C27
+//@   requires stackInv(stack) && 2 <= stack.size
+//@   ensures overflow == memOvf(sval(stack, 0), sval(stack, 1))
+//@   ensures !overflow ==> size == memNeed(sval(stack, 0), sval(stack, 1))
+
+//@ func memoryCallDataCopy(stack *Stack) (size uint64, overflow bool)
+//@   serves C27
+//@   requires stackInv(stack) && 3 <= stack.size
+//@   ensures overflow == memOvf(sval(stack, 0), sval(stack, 2))
+//@   ensures !overflow ==> size == memNeed(sval(stack, 0), sval(stack, 2))
+
+//@ func memoryReturnDataCopy(stack *Stack) (size uint64, overflow bool)
+//@   serves C27
+//@   requires stackInv(stack) && 3 <= stack.size
+//@   ensures overflow == memOvf(sval(stack, 0), sval(stack, 2))
+//@   ensures !overflow ==> size == memNeed(sval(stack, 0), sval(stack, 2))
+
+//@ func memoryCodeCopy(stack *Stack) (size uint64, overflow bool)
+//@   serves C27
+//@   requires stackInv(stack) && 3 <= stack.size
+//@   ensures overflow == memOvf(sval(stack, 0), sval(stack, 2))
+//@   ensures !overflow ==> size == memNeed(sval(stack, 0), sval(stack, 2))
+
+//@ func memoryExtCodeCopy(stack *Stack) (size uint64, overflow bool)
+//@   serves C27
+//@   requires stackInv(stack) && 4 <= stack.size
+//@   ensures overflow == memOvf(sval(stack, 1), sval(stack, 3))
+//@   ensures !overflow ==> size == memNeed(sval(stack, 1), sval(stack, 3))
+
+//@ func memoryCreate(stack *Stack) (size uint64, overflow bool)
+//@   serves C27
+//@   requires stackInv(stack) && 3 <= stack.size
+//@   ensures overflow == memOvf(sval(stack, 1), sval(stack, 2))
+//@   ensures !overflow ==> size == memNeed(sval(stack, 1), sval(stack, 2))
+
+//@ func memoryCreate2(stack *Stack) (size uint64, overflow bool)
+//@   serves C27
+//@   requires stackInv(stack) && 3 <= stack.size
+//@   ensures overflow == memOvf(sval(stack, 1), sval(stack, 2))
+//@   ensures !overflow ==> size == memNeed(sval(stack, 1), sval(stack, 2))
+
+//@ func memoryReturn(stack *Stack) (size uint64, overflow bool)
+//@   serves C27
+//@   requires stackInv(stack) && 2 <= stack.size
+//@   ensures overflow == memOvf(sval(stack, 0), sval(stack, 1))
+//@   ensures !overflow ==> size == memNeed(sval(stack, 0), sval(stack, 1))
+
+//@ func memoryRevert(stack *Stack) (size uint64, overflow bool)
+//@   serves C27
+//@   requires stackInv(stack) && 2 <= stack.size
+//@   ensures overflow == memOvf(sval(stack, 0), sval(stack, 1))
+//@   ensures !overflow ==> size == memNeed(sval(stack, 0), sval(stack, 1))
+
+//@ func memoryLog(stack *Stack) (size uint64, overflow bool)
+//@   serves C27
+//@   requires stackInv(stack) && 2 <= stack.size
+//@   ensures overflow == memOvf(sval(stack, 0), sval(stack, 1))
+//@   ensures !overflow ==> size == memNeed(sval(stack, 0), sval(stack, 1))
+
+//@ func memoryMLoad(stack *Stack) (size uint64, overflow bool)
+//@   serves C27
+//@   requires stackInv(stack) && 1 <= stack.size
+//@   ensures overflow == memOvf(sval(stack, 0), 32)
+//@   ensures !overflow ==> size == memNeed(sval(stack, 0), 32)
+
+//@ func memoryMStore8(stack *Stack) (size uint64, overflow bool)
+//@   serves C27
+//@   requires stackInv(stack) && 1 <= stack.size
+//@   ensures overflow == memOvf(sval(stack, 0), 1)
+//@   ensures !overflow ==> size == memNeed(sval(stack, 0), 1)
+
+//@ func memoryMStore(stack *Stack) (size uint64, overflow bool)
+//@   serves C27
+//@   requires stackInv(stack) && 1 <= stack.size
+//@   ensures overflow == memOvf(sval(stack, 0), 32)
+//@   ensures !overflow ==> size == memNeed(sval(stack, 0), 32)
+
+// MCOPY needs the larger of the source and destination regions.
+//@ func memoryMcopy(stack *Stack) (size uint64, overflow bool)
+//@   serves C27
+//@   requires stackInv(stack) && 3 <= stack.size
+//@   ensures overflow == (memOvf(sval(stack, 0), sval(stack, 2)) || memOvf(sval(stack, 1), sval(stack, 2)))
+//@   ensures !overflow ==> size == max(memNeed(sval(stack, 0), sval(stack, 2)), memNeed(sval(stack, 1), sval(stack, 2)))
+
+// The call family needs the larger of the input and the return region.
+//@ func memoryCall(stack *Stack) (size uint64, overflow bool)
+//@   serves C27
+//@   requires stackInv(stack) && 7 <= stack.size
+//@   ensures overflow == (memOvf(sval(stack, 5), sval(stack, 6)) || memOvf(sval(stack, 3), sval(stack, 4)))
+//@   ensures !overflow ==> size == max(memNeed(sval(stack, 5), sval(stack, 6)), memNeed(sval(stack, 3), sval(stack, 4)))
+
+// The call family needs the larger of the input and the return region.
+//@ func memoryDelegateCall(stack *Stack) (size uint64, overflow bool)
+//@   serves C27
+//@   requires stackInv(stack) && 6 <= stack.size
+//@   ensures overflow == (memOvf(sval(stack, 4), sval(stack, 5)) || memOvf(sval(stack, 2), sval(stack, 3)))
+//@   ensures !overflow ==> size == max(memNeed(sval(stack, 4), sval(stack, 5)), memNeed(sval(stack, 2), sval(stack, 3)))
+
+// The call family needs the larger of the input and the return region.
+//@ func memoryStaticCall(stack *Stack) (size uint64, overflow bool)
+//@   serves C27
+//@   requires stackInv(stack) && 6 <= stack.size
+//@   ensures overflow == (memOvf(sval(stack, 4), sval(stack, 5)) || memOvf(sval(stack, 2), sval(stack, 3)))
+//@   ensures !overflow ==> size == max(memNeed(sval(stack, 4), sval(stack, 5)), memNeed(sval(stack, 2), sval(stack, 3)))
+
+// ---- memory object (memory.go)
+
+// Pooled memory: every byte between len and cap of the store is zero, so that re-slicing in
+// Resize exposes only zeros ("memory that a program has not written reads as zero").
+//@ pure func memInv(m *Memory) bool { return forall i int :: len(m.store) <= i && i < cap(m.store) ==> m.store[i] == 0 }
+
+//@ func (m *Memory) Len() (n int)
+//@   serves C27 C28
+//@   ensures n == len(m.store)
+
+//@ func (m *Memory) Resize(size uint64)
+//@   serves C27 C28
+//@   requires memInv(m) && size <= 274877906944
+//@   modifies m.store
+//@   ensures len(m.store) == max(old(len(m.store)), size) && memInv(m)
+//@   ensures forall i int :: 0 <= i && i < old(len(m.store)) ==> m.store[i] == old(m.store[i])
+//@   ensures forall i int :: old(len(m.store)) <= i && i < len(m.store) ==> m.store[i] == 0
+
+// Free clears what the program wrote before the object goes back to the pool.
+//@ func (m *Memory) Free()
+//@   serves C28
+//@   requires memInv(m)
+//@   modifies m.store, m.lastGasCost, m.store[..]
+//@   ensures old(cap(m.store)) <= 16384 ==> len(m.store) == 0 && m.lastGasCost == 0 && memInv(m)
+
+//@ func (m *Memory) Set(offset, size uint64, value []byte)
+//@   serves C27 C28
+//@   requires size > 0 ==> offset + size <= len(m.store)
+//@   modifies m.store[offset : offset + size]
+//@   ensures forall k int :: 0 <= k && k < size && k < len(value) ==> m.store[offset + k] == old(value[k])
+//@   ensures len(m.store) == old(len(m.store))
+
+//@ func (m *Memory) GetCopy(offset, size uint64) (cpy []byte)
+//@   serves C27 C28
+//@   requires size > 0 ==> offset + size <= len(m.store)
+//@   ensures len(cpy) == size
+//@   ensures forall k int :: 0 <= k && k < size ==> cpy[k] == m.store[offset + k]
+
+//@ func (m *Memory) GetPtr(offset, size uint64) (p []byte)
+//@   serves C27 C28
+//@   requires size > 0 ==> offset + size <= len(m.store)
+//@   ensures size == 0 ==> len(p) == 0
+//@   ensures size > 0 ==> p == m.store[offset : offset + size]
+
+//@ func (m *Memory) Copy(dst, src, len uint64)
+//@   serves C27 C28
+//@   requires len > 0 ==> src + len <= len(m.store) && dst + len <= len(m.store)
+//@   modifies m.store[dst : dst + len]
+//@   ensures forall k int :: 0 <= k && k < len ==> m.store[dst + k] == old(m.store[src + k])
+
+// ---- memory expansion gas (gas_table.go) and the 63/64 rule (gas.go)
+
+// Total fee for w words of memory.
+//@ pure func memCost(w int) int { return w * 3 + (w * w) / 512 }
+
+//@ lemma memCostMono(a int, b int)
+//@   serves C27
+//@   requires 0 <= a && a <= b
+//@   ensures memCost(a) <= memCost(b)
+
+// memoryGasCost charges exactly the difference of the total fees, never underflows, and keeps
+// the cached total in step with the size it was computed for.
+//@ func memoryGasCost(mem *Memory, newMemSize uint64) (fee uint64, err error)
+//@   serves C27
+//@   requires len(mem.store) % 32 == 0 && mem.lastGasCost == memCost(len(mem.store) / 32)
+//@   modifies mem.lastGasCost
+//@   uses memCostMono(len(mem.store) / 32, (newMemSize + 31) / 32)
+//@   ensures (err == nil) == (newMemSize <= 137438953440)
+//@   ensures err == nil && ((newMemSize + 31) / 32) * 32 > len(mem.store) ==> fee == memCost((newMemSize + 31) / 32) - old(mem.lastGasCost) && mem.lastGasCost == memCost((newMemSize + 31) / 32)
+//@   ensures err == nil && ((newMemSize + 31) / 32) * 32 <= len(mem.store) ==> fee == 0 && mem.lastGasCost == old(mem.lastGasCost)
+//@   ensures err != nil ==> fee == 0 && mem.lastGasCost == old(mem.lastGasCost)
+//@   nowrap
+
+// callGas never hands the callee more than all but one 64th of what is left after the base cost.
+//@ func callGas(isEip150 bool, availableGas, base uint64, callCost *uint256.Int) (gas uint64, err error)
+//@   serves C27
+//@   requires isEip150 ==> base <= availableGas
+//@   ensures isEip150 ==> err == nil && gas == min(availableGas - base - (availableGas - base) / 64, u256val(callCost))
+//@   ensures !isEip150 ==> (err == nil) == (u256val(callCost) < 18446744073709551616) && (err == nil ==> gas == u256val(callCost))
+//@   nowrap
+
+// ---- stack bounds table (stack_table.go): the interpreter runs an operation only when
+// minStack <= len <= maxStack; with these definitions that leaves room for the pushes and enough
+// items for the pops, and the result stays within the limit of 1024.
+
+//@ func maxStack(pop, push int) (m int)
+//@   serves C27
+//@   requires 0 <= pop && pop <= 1024 && 0 <= push && push <= 1024
+//@   ensures m == 1024 + pop - push
+//@   ensures forall n int :: pop <= n && n <= m ==> 0 <= n - pop && n - pop + push <= 1024
+
+//@ func minStack(pops, push int) (m int)
+//@   serves C27
+//@   ensures m == pops
+
+//@ func minSwapStack(n int) (m int)
+//@   serves C27
+//@   ensures m == n
+
+//@ func maxSwapStack(n int) (m int)
+//@   serves C27
+//@   requires 0 <= n && n <= 1024
+//@   ensures m == 1024
+
+//@ func minDupStack(n int) (m int)
+//@   serves C27
+//@   ensures m == n
+
+//@ func maxDupStack(n int) (m int)
+//@   serves C27
+//@   requires 0 <= n && n < 1024
+//@   ensures m == 1023
+
+// A new frame starts at the arena's first free slot and has room for 1024 items.
+//@ func (sa *stackArena) stack() (s *Stack)
+//@   serves C27 C28
+//@   requires 0 <= sa.top && sa.top <= len(sa.data)
+//@   modifies sa.data
+//@   ensures isfresh(s) && s.inner == sa && s.bottom == sa.top && s.size == 0 && stackInv(s)
+//@   ensures sa.top == old(sa.top)
